@@ -2,3 +2,6 @@ import TTLemmas.Sum
 import TTLemmas.Add
 import TTLemmas.Mul
 import TTLemmas.Simple
+import TTLemmas.Trunc
+import TTLemmas.Matmul
+import TTLemmas.Sweep
